@@ -111,6 +111,10 @@ def run(ck, F):
     from rules import c04 as C04
     from rules import c10 as C10
     C10.run(C04._Sub(ck, "R6", lambda key: True, only_rules=("R1", "R2", "R3")), F)
+    # .. and an item is written into the module of the namespace that was current when it was read: a reference to it names the module of
+    # its own namespace, so the two agree only if every schema element and every definition read out of its turn is read under its own
+    # namespace and the previous one is current again afterwards (C10.R6)
+    C10.run(C04._Sub(ck, "R4", lambda key: key.startswith(("out-of-turn", "switch-always", "schema-under-own")) or "floor" in key, only_rules=("R6",)), F)
     rule_self_alias(ck, F, X)
     rule_member_separators(ck, F, X)
     rule_doc_comments_document(ck, F, X)
